@@ -12,6 +12,9 @@ BadOf(r) ==
     [] r.t = "nib"  -> IF r.tbl = NibbleTbl(r.c) /\ \A x \in Byte : ViaNibble(r.tbl, x) = Mul(r.c, x)
                        THEN {} ELSE {<<r.src, r.c, 0>>}
     [] r.t = "gfni" -> IF \A x \in Byte : Affine(r.m, x) = Mul(r.c, x) THEN {} ELSE {<<r.src, r.c, 0>>}
+    [] r.t = "vmul" -> \* the constant-multiply kernels: out[i] = c * src[i], src = 0..255 followed by the permutation i -> 7 i + 13
+                       IF r.ret = 0 /\ \A i \in 0..255 : r.out[i + 1] = Mul(r.c, i) /\ r.out[257 + i] = Mul(r.c, (7 * i + 13) % 256)
+                       THEN {} ELSE {<<r.src, r.c, 0>>}
     [] OTHER -> {<<"unknown-record", 0, 0>>}
 
 Bad == FoldLeft(LAMBDA acc, i : acc \cup BadOf(Rec[i]), {}, Range1(Len(Rec)))
@@ -23,7 +26,7 @@ FieldOK == AxCommutative /\ AxZeroOne /\ AxInverse /\ AxNoZeroDiv
            /\ \A c \in Byte : GfniMatrix(c) = GfniMatrix(c) /\ \A x \in {1,2,77,255} : Affine(GfniMatrix(c), x) = Mul(c, x)
 
 Result == [field_ok |-> FieldOK, records |-> Len(Rec),
-           mul_rows |-> Count("mul"), inv |-> Count("inv"), nib |-> Count("nib"), gfni |-> Count("gfni"),
+           mul_rows |-> Count("mul"), inv |-> Count("inv"), nib |-> Count("nib"), gfni |-> Count("gfni"), vmul |-> Count("vmul"),
            nbad |-> Cardinality(Bad), bad |-> SetToSeq(IF Cardinality(Bad) > 20 THEN {CHOOSE b \in Bad : TRUE} ELSE Bad)]
 ASSUME ndJsonSerialize(IOEnv.VERIF_OUT, <<Result>>)
 =============================================================================
